@@ -240,6 +240,10 @@ func davModel(t harness.Tree, q harness.Req, tagOf func(string) string) *davExpe
 		if k == "unmapped" {
 			e.refuse(404, "target unmapped")
 		}
+		if p == "/" {
+			e.Class = "DELETE.target=root"
+			e.refuse(0, "the served directory itself cannot be deleted through the protocol")
+		}
 		if condClass != "" {
 			e.Class += "." + condRefusals(e, hdr, k != "unmapped", tagOf(p))
 		}
